@@ -17,17 +17,17 @@ ENTRIES = ["conelp", "coneqp", "lp", "qp", "socp", "sdp", "cpl", "cp", "gp", "op
 REQUIRED_COUNTERS = ["iso." + e for e in ENTRIES] + ["immutability-checks", "global-state-checks", "options-precedence-checks",
                                                       "validation-rejections", "budget-checks", "monotone-tolerance-checks",
                                                       "hist.calls-vs-fresh-process", "threads.runs", "threads.results-compared",
-                                                      "threads.context-switches-in-solver"]
+                                                      "threads.context-switches-in-solver", "threads.homogeneous-runs"]
 
 
 def plan(tier):
     if tier == "thorough":
         return [{"variant": "plain", "name": "iso", "workers": 8, "cases": 900, "params": {"mon": "iso"}},
                 {"variant": "plain", "name": "hist", "workers": 4, "cases": 40, "params": {"mon": "hist"}},
-                {"variant": "plain", "name": "threads", "workers": 4, "cases": 60, "params": {"mon": "threads"}}]
+                {"variant": "plain", "name": "threads", "workers": 8, "cases": 300, "params": {"mon": "threads"}}]
     return [{"variant": "plain", "name": "iso", "workers": 8, "cases": 60, "params": {"mon": "iso"}},
             {"variant": "plain", "name": "hist", "workers": 4, "cases": 3, "params": {"mon": "hist"}},
-            {"variant": "plain", "name": "threads", "workers": 4, "cases": 6, "params": {"mon": "threads"}}]
+            {"variant": "plain", "name": "threads", "workers": 8, "cases": 30, "params": {"mon": "threads"}}]
 
 
 def run(ctx):
@@ -352,11 +352,22 @@ sys.stdout.write(pickle.dumps(out).hex())
         per = rng.randint(2, 4)
         ents = ["conelp", "coneqp", "lp", "qp", "socp", "sdp", "cpl", "cp", "gp"]
         specs = [[(ents[rng.randrange(len(ents))], rng.randrange(1 << 30), rand_options(rng)) for _ in range(per)] for _ in range(T)]
+        kkts = [[None] * per for _ in range(T)]
+        homogeneous = rng.random() < 0.5
+        if homogeneous:
+            # all threads solve problems of ONE shape with ONE KKT solver at the same time (per-call options still differ):
+            # state shared between solver instances "of the same size" (scratch buffers, caches keyed by shape or id)
+            # only collides in this configuration
+            e0, s0 = ents[rng.randrange(len(ents))], rng.randrange(1 << 30)
+            k0 = [None, "ldl", "ldl2", "chol", "chol2", "qr"][(c.k + ctx.worker) % 6]      # every solver in turn
+            specs = [[(e0, s0, rand_options(rng)) for _ in range(per)] for _ in range(T)]
+            kkts = [[k0] * per for _ in range(T)]
+            ctx.count("threads.homogeneous-runs")
         inject = rng.random() < 0.6
         prob = rng.choice([0.02, 0.1, 0.3])
         # sequential reference (problems pre-generated: the generators use their own PRNGs, never the global one)
         calls = [[Call(e, s) for (e, s, o) in th] for th in specs]
-        seq = [[run_frozen(calls[t][i], options=dict(specs[t][i][2])) for i in range(per)] for t in range(T)]
+        seq = [[run_frozen(calls[t][i], options=dict(specs[t][i][2]), kkt=kkts[t][i]) for i in range(per)] for t in range(T)]
         calls = [[Call(e, s) for (e, s, o) in th] for th in specs]
         out = [[None] * per for _ in range(T)]
         trace = []
@@ -403,7 +414,7 @@ sys.stdout.write(pickle.dumps(out).hex())
             tl.tid = t
             try:
                 for i in range(per):
-                    out[t][i] = run_frozen(calls[t][i], options=dict(specs[t][i][2]))
+                    out[t][i] = run_frozen(calls[t][i], options=dict(specs[t][i][2]), kkt=kkts[t][i])
             except BaseException as e:
                 errs.append(repr(e))
         try:
@@ -434,8 +445,9 @@ sys.stdout.write(pickle.dumps(out).hex())
         ctx.count("threads.kkt-events", len(trace))
         ctx.count("threads.yields-injected", yields["n"])
         sig = hashlib.sha1(bytes([x % 256 for x in trace])).hexdigest()[:12]
-        c.desc.update({"monitor": "threads", "T": T, "per": per, "inject": inject, "switches": sw, "trace-signature": sig})
-        c.cls("threads", "T%d" % T, "inj" if inject else "noinj", sig)
+        c.desc.update({"monitor": "threads", "T": T, "per": per, "inject": inject, "switches": sw, "trace-signature": sig,
+                       "homogeneous": homogeneous})
+        c.cls("threads", "T%d" % T, "inj" if inject else "noinj", "homog" if homogeneous else "mixed", sig)
 
     for k in ctx.cases():
         ctx.run_case(k, {}, {"iso": iso, "hist": hist, "threads": threads_mon}[ctx.params.get("mon", "iso")])
